@@ -1,8 +1,8 @@
 P('C03', shards=16,
-  passes=[{'race': False, 'run': '^(TestTreeHistories|TestWithEqualsCallSite|TestRegression)$'}, {'race': True, 'run': '^(TestConcurrentDerive|TestRegression)$'}],
+  passes=[{'race': False, 'run': '^(TestTreeHistories|TestWithEqualsCallSite|TestWithRawArgsEqualsCallSite|TestRegression)$'}, {'race': True, 'run': '^(TestConcurrentDerive|TestRegression)$'}],
   technique='model-based stateful property testing (rapid state machine over derivation trees; oracle: isolated replay of the node\'s own chain) + metamorphic relation With(a).Log(b) == Log(a,b) + concurrent derivation under the race detector',
   text='For each of the three handlers, generated derivation-tree histories (with / withGroup / log on arbitrary nodes, several children per attribute-carrying parent, older siblings logging after younger ones were derived, every node logging again at the end) '
-       'are run on one shared sink; every written line must equal, modulo the masked time field, the line of a logger built alone from a fresh root by replaying only that node\'s chain. With(a).Log(b) must equal Log(a,b) inside any WithGroup context. '
+       'are run on one shared sink; every written line must equal, modulo the masked time field, the line of a logger built alone from a fresh root by replaying only that node\'s chain. With(a).Log(b) must equal Log(a,b) inside any WithGroup context, also for raw argument lists as a caller may write them (a key followed by an Attr, ready-made Attrs, bare values, dangling keys, nil). '
        'K goroutines meeting at a barrier and deriving at the same time from each of up to 48 fresh non-root parents (the first derivation from a handler is raced again and again), then logging concurrently, are checked the same way under -race. Exploration, not proof.',
   note='Trusts that a fresh root replay defines the intended line (faithfulness of that line is C01/C13); concurrent interleavings are sampled by the Go scheduler, not enumerated.',
   design='3/C03')
